@@ -181,7 +181,7 @@ pub fn run_consts(_line: &str) -> String {
 //   nx, disc          `expected_hashes` of validate_ixes_exclusive
 //   flags        account_flags of the marginfi account (key code 1) given to check_flashloan_can_start
 //   n, (prog disc len acct0)   the transaction: program code, discriminator symbol or u64 (the data
-//                is the first `len` bytes of disc_le ‖ 0...), first account key code (0 = no accounts)
+//                is the first `len` bytes of disc_le ‖ 0...), first account key code (0 = no accounts; c >= 100 = two accounts [c % 100, c / 100])
 // out:   first last excl | VL[cur]... | VD[cur]... | FL[cur][end]...  (cur in 0..n, end in 0..=n+1,
 //        then one probe with end = u64::MAX at cur 0)
 //   VL / VD = the real `validate_instructions` with the liquidation / deleverage discriminators.
@@ -198,7 +198,14 @@ fn mk_ix(t: &TxIx) -> Ix {
     for i in 0..t.len.min(8) {
         data[i] = t.disc[i];
     }
-    let accounts = if t.acct0 == 0 { vec![] } else { vec![AccountMeta::new(key_of(t.acct0), false)] };
+    // account code: 0 = no accounts, c < 100 = [c], otherwise [c % 100, c / 100] (a trailing second account)
+    let accounts = if t.acct0 == 0 {
+        vec![]
+    } else if t.acct0 < 100 {
+        vec![AccountMeta::new(key_of(t.acct0), false)]
+    } else {
+        vec![AccountMeta::new(key_of(t.acct0 % 100), false), AccountMeta::new(key_of(t.acct0 / 100), false)]
+    };
     Ix { program_id: prog_key(t.prog), accounts, data }
 }
 
@@ -514,6 +521,15 @@ fn build_sim_ix(fx: &Fix, w: &World, t: &mut Toks) -> Ix {
             let a = fx.acct(t.u64());
             let s = fx.wallet(t.u64());
             ixs::lending_account_end_flashloan(a, s, rem_for(w, &a, &[]))
+        }
+        "EFX" => {
+            // end_flashloan of account a with another marginfi account riding along as a trailing remaining account
+            let a = fx.acct(t.u64());
+            let s = fx.wallet(t.u64());
+            let x = fx.acct(t.u64());
+            let mut rem = rem_for(w, &a, &[]);
+            rem.push(AccountMeta::new(x, false));
+            ixs::lending_account_end_flashloan(a, s, rem)
         }
         "WD" | "RP" | "BR" | "DP" => {
             let a = fx.acct(t.u64());
